@@ -11,6 +11,7 @@ package main
 // are listed with the reason.
 
 import (
+	"fmt"
 	"go/types"
 	"sort"
 	"strings"
@@ -42,87 +43,97 @@ func ruleX9(p *Prog, r *Report) {
 		if !strings.HasPrefix(ln, "copy") {
 			continue
 		}
-		ord := map[string]int{}
-		eachInstr(f, func(in ssa.Instruction) {
-			al, ok := in.(*ssa.Alloc)
-			if !ok {
-				return
-			}
-			nt := rootNamed(al.Type())
-			if nt == nil || nt.Obj().Pkg() == nil || nt.Obj().Pkg().Path() != rootPkgPath {
-				return
-			}
-			st, ok := nt.Underlying().(*types.Struct)
-			if !ok {
-				return
-			}
-			// skip spills of parameters / loaded values (not a literal being built)
-			built := false
-			for _, ref := range *al.Referrers() {
-				switch x := ref.(type) {
-				case *ssa.FieldAddr:
-					built = true
-				case *ssa.Store:
-					if x.Addr == ssa.Value(al) {
-						if _, isP := x.Val.(*ssa.Parameter); isP {
-							return
-						}
+		n += builtStructsComplete(p, r, R, "copy-fields", f, copyZeroOK, nil,
+			"every field of the copy is assigned",
+			"the copy built here never assigns field(s) %s: the copy silently gets the zero value where the source has content")
+	}
+	r.Floor(R, "structs built by copy functions", 6, n)
+}
+
+// builtStructsComplete: every in-package struct that f builds field by field has all its fields assigned in f
+// (zeroOK lists fields whose zero value is intended; only lists types to look at when non-nil).
+func builtStructsComplete(p *Prog, r *Report, R, label string, f *ssa.Function, zeroOK map[string]string, only map[string]bool, okMsg, badFmt string) int {
+	n := 0
+	ord := map[string]int{}
+	eachInstr(f, func(in ssa.Instruction) {
+		al, ok := in.(*ssa.Alloc)
+		if !ok {
+			return
+		}
+		nt := rootNamed(al.Type())
+		if nt == nil || nt.Obj().Pkg() == nil || nt.Obj().Pkg().Path() != rootPkgPath {
+			return
+		}
+		st, ok := nt.Underlying().(*types.Struct)
+		if !ok {
+			return
+		}
+		tn := nt.Obj().Name()
+		if only != nil && !only[tn] {
+			return
+		}
+		// skip spills of parameters / loaded values (not a literal being built)
+		built := false
+		for _, ref := range *al.Referrers() {
+			switch x := ref.(type) {
+			case *ssa.FieldAddr:
+				built = true
+			case *ssa.Store:
+				if x.Addr == ssa.Value(al) {
+					if _, isP := x.Val.(*ssa.Parameter); isP {
+						return
 					}
 				}
 			}
-			if !built {
-				return
-			}
-			tn := nt.Obj().Name()
-			// nested header struct literals are checked through their owner
-			if strings.HasSuffix(tn, "SlabHeader") {
-				// is this temp stored into a header field of another alloc? then the owner's check covers it
-				for _, ref := range *al.Referrers() {
-					if ld, ok := ref.(*ssa.UnOp); ok {
-						for _, r2 := range *ld.Referrers() {
-							if s2, ok := r2.(*ssa.Store); ok {
-								if _, isFA := s2.Addr.(*ssa.FieldAddr); isFA {
-									return
-								}
+		}
+		if !built {
+			return
+		}
+		// nested header struct literals are checked through their owner
+		if strings.HasSuffix(tn, "SlabHeader") {
+			for _, ref := range *al.Referrers() {
+				if ld, ok := ref.(*ssa.UnOp); ok {
+					for _, r2 := range *ld.Referrers() {
+						if s2, ok := r2.(*ssa.Store); ok {
+							if _, isFA := s2.Addr.(*ssa.FieldAddr); isFA {
+								return
 							}
 						}
 					}
 				}
 			}
-			ord[tn]++
-			n++
-			cons := "copy-fields:" + p.Name(f) + ":" + tn
-			if ord[tn] > 1 {
-				cons += "#" + itoa(ord[tn])
-			}
-			var missing []string
-			var walk func(prefix []string, s *types.Struct)
-			walk = func(prefix []string, s *types.Struct) {
-				for i := 0; i < s.NumFields(); i++ {
-					fld := s.Field(i)
-					path := append(append([]string{}, prefix...), fld.Name())
-					if sub, ok := fld.Type().Underlying().(*types.Struct); ok && strings.HasSuffix(typeName(fld.Type()), "SlabHeader") {
-						if litField(f, al, path...) == nil {
-							walk(path, sub)
-						}
-						continue
+		}
+		ord[tn]++
+		n++
+		cons := label + ":" + p.Name(f) + ":" + tn
+		if ord[tn] > 1 {
+			cons += "#" + itoa(ord[tn])
+		}
+		var missing []string
+		var walk func(prefix []string, s *types.Struct)
+		walk = func(prefix []string, s *types.Struct) {
+			for i := 0; i < s.NumFields(); i++ {
+				fld := s.Field(i)
+				path := append(append([]string{}, prefix...), fld.Name())
+				if sub, ok := fld.Type().Underlying().(*types.Struct); ok && strings.HasSuffix(typeName(fld.Type()), "SlabHeader") {
+					if litField(f, al, path...) == nil {
+						walk(path, sub)
 					}
-					key := tn + "." + strings.Join(path, ".")
-					if _, ok := copyZeroOK[key]; ok {
-						continue
-					}
-					if litField(f, al, path...) == nil && !fieldAssigned(f, al, path) {
-						missing = append(missing, strings.Join(path, "."))
-					}
+					continue
+				}
+				key := tn + "." + strings.Join(path, ".")
+				if _, ok := zeroOK[key]; ok {
+					continue
+				}
+				if litField(f, al, path...) == nil && !fieldAssigned(f, al, path) {
+					missing = append(missing, strings.Join(path, "."))
 				}
 			}
-			walk(nil, st)
-			r.Decide(len(missing) == 0, R, cons, p.InstrPos(in),
-				"every field of the copy is assigned",
-				"the copy built here never assigns field(s) "+strings.Join(missing, ", ")+": the copy silently gets the zero value where the source has content")
-		})
-	}
-	r.Floor(R, "structs built by copy functions", 6, n)
+		}
+		walk(nil, st)
+		r.Decide(len(missing) == 0, R, cons, p.InstrPos(in), okMsg, fmt.Sprintf(badFmt, strings.Join(missing, ", ")))
+	})
+	return n
 }
 
 // fieldAssigned: some store in f writes the field path of object al (through nested FieldAddr).
@@ -161,4 +172,23 @@ func fieldAssigned(f *ssa.Function, al ssa.Value, path []string) bool {
 		}
 	})
 	return found
+}
+
+// decodeZeroOK: fields of element structs that a decoder may leave zero, with the reason.
+var decodeZeroOK = map[string]string{}
+
+// L24 decoded element structs are complete (C07, C08): every element list / element / collision group struct a decoder
+// builds has every field assigned (hash level, digests, elements, cached size, slab id ...). L11 decides the same for
+// the slab structs from the fields the in-memory code maintains; this is its counterpart for the parts inside a slab.
+func ruleL24(p *Prog, r *Report) {
+	const R = "L24"
+	scope, _ := p.decodeScope()
+	only := map[string]bool{"hkeyElements": true, "singleElements": true, "singleElement": true, "inlineCollisionGroup": true, "externalCollisionGroup": true}
+	n := 0
+	for _, f := range sortedFuncs(p, scope) {
+		n += builtStructsComplete(p, r, R, "decoded-part-fields", f, decodeZeroOK, only,
+			"every field of the decoded element structure is assigned",
+			"the decoder never assigns field(s) %s of the structure it builds: a reloaded slab differs from the one that was encoded")
+	}
+	r.Floor(R, "element structures built by decoders", 4, n)
 }
